@@ -7,6 +7,24 @@ ROOT = os.path.dirname(os.path.dirname(os.path.abspath(__file__)))
 ALL = ["C%02d" % i for i in range(1, 21)]
 
 CHECKS = {
+    "C12": dict(
+        technique="Lean 4 theorems characterising, for every client handler of the model and lifted to whole entries and histories, the exact recipient set of every output line (iff statements over the membership relation) and the prefix it carries (identity invariant PInv preserved by all handlers); reference monitor over the real code's outputs; correspondence of outputs and recipients between the real ProcessMessage and the model",
+        text="Machine-checked proof that in every reachable state: a channel PRIVMSG/NOTICE is delivered to exactly the other members of that channel (C12_privmsg, C12_privmsg_no_eavesdrop, C12_privmsg_channel_delivered), a private one only to the session owning the target nickname, numeric replies only to the causing session, ERROR only to the closed session, JOIN/PART/KICK/TOPIC/MODE/INVITE notifications to exactly the members of that channel (+ services links), NICK/QUIT/KILL to exactly the sessions sharing a channel with the subject; every relayed line carries nick!user@robust/0x<session id> of the acting session, which no other registered client can carry (C12_sender_identity, C12_no_impersonation); lifted to applyEntry and to every history (C12_entry_client, C12_history). Recipient sets of the services handlers other than PRIVMSG are not classified (partial). On every run the real code's outputs (Data and InterestingFor of every message) are compared with the model's on generated histories, and an independent reference monitor driven by the announced JOIN/PART/KICK/QUIT/NICK events checks the real recipients.",
+        design_ref="DESIGN.md §4 C12",
+        note="Trusts: Lean kernel; the hand-written handler models to the extent the differential runs exercise them; GetMessages filters by InterestingFor (exercised in C04/C11 runs). One leak found and repaired (services JOIN/PART announced on all common channels).",
+    ),
+    "C13": dict(
+        technique="Lean 4 refusal-frame theorems per privileged command (lacking the privilege => replicated state unchanged and only the actor hears about it), origin theorems for the operator / server / member / chanop flags, and a history theorem for chanop status; reference monitor of privileges over the real code's announcements; correspondence runs",
+        text="Machine-checked proof on the model: KICK, INVITE into +i, TOPIC on +t, and channel MODE (every letter of a multi-letter change, keys, bans, +o) leave the state unchanged unless the actor is channel operator there (MODE also for IRC operators); TOPIC set/clear needs membership; KILL, GLINE and $-targets need the operator flag, which only OPER with a configured name/password sets; the server flag is only set by SERVER after PASS with a configured services password and services handlers are only dispatched for such links; a session becomes member of an existing channel only if not banned, with the key on +k and an unused invitation on +i/+x (consumed once); over histories, an unprivileged client entry never creates a chanop flag on an existing channel (C13_chanop_history_partial). Captcha verification is outside the model (declined): exercised on the real code with correct/mutated/replayed/expired tokens. Every run compares the real code with the model on privilege-aware generated histories and checks every announced privileged effect against a reference model of who held what.",
+        design_ref="DESIGN.md §4 C13",
+        note="Trusts: Lean kernel; the hand-written handler models tied by differential runs; captcha HMAC checked dynamically only. Two defects found and repaired (TOPIC clear by non-member, +x captcha bypassing +b).",
+    ),
+    "C20": dict(
+        technique="Lean 4 theorem on a trace model of RW locks (lock discipline => conflicting accesses of different threads are separated by release/acquire of the guard, never adjacent), a static lockset table regenerated from the Go source (function x field x read/write x locks held incl. callers' locks by call-graph fixpoint) checked against the guard assignment by kernel evaluation, and a stress run of all concurrently executed operation groups under the Go race detector",
+        text="Proved: in the RWMutex trace model a disciplined program has no unordered conflicting accesses (C20_lockset_orders, C20_no_adjacent_race). Regenerated on every run and checked in the kernel: every access to a field of IRCServer, Session, channel, OutputStream, LevelDBStore, HTTP, FSM in the source holds the field's guard (exclusively for writes), every handler is entered with the session lock held exclusively, every field is classified as guarded / immutable / goroutine-confined, with nine justified exceptions. What a static lockset cannot see (escaping pointers, two server instances, confinement) is covered by running two POSTs per session, long-polls, create/delete, status pages, config, expiry, Snapshot+Persist and Restore concurrently under -race. Seven genuine races were found this way (one by the static table) and repaired.",
+        design_ref="DESIGN.md §4 C20",
+        note="Trusts: Lean kernel; tools/extract/locks.go (pattern-based lockset, not a sound alias analysis); sync.RWMutex semantics as modelled; the race detector sees only the schedules that occur. Restore is kept apart from readers of the closed stores in the stress run (those crash the process: observation in DESIGN.md, not a data race).",
+    ),
     "C06": dict(
         technique="Lean 4 proof of panic-freedom of the model's applyEntry for all 46 handlers under an inductive state invariant (GInv), for every history; command table, MinParams and handler names regenerated from the Go source; the model is tied to the real ProcessMessage/applyRobustMessage by differential runs with recover() around every entry",
         text="Machine-checked proof (C06_no_panic, C06_client_no_panic, C06_history_no_panic) that in every state reachable by any history of well-formed entries, applying any further entry returns without hitting any of the model's panic sites (every map/slice/nil dereference of the Go handlers is an explicit panic site in the model) — for client sessions with no condition on the line at all, for services links for protocol-conforming lines (prefix present, documented parameter count). The command table is re-extracted on every run (a new command without a modelled handler breaks C06_table_modelled). The model is hand-written: its faithfulness is checked on every run by executing the same histories (grammar of all commands x parameter shapes + garbage) on the real code with recover() and comparing state dumps and outputs; a real panic is a violation with the history as replay. Where the model declines (captcha verification) the theorem says nothing.",
